@@ -1072,9 +1072,12 @@ func init() {
 // validated in the consensus receive routine, which nothing recovers. Decoding/validation of what a peer
 // sent must therefore fail with an error, never panic:
 // (a) LightClientAttackEvidence.ValidateBasic reads fields promoted from the embedded *SignedHeader only
-//     after testing that pointer;
+//
+//	after testing that pointer;
+//
 // (b) ValidatorSetFromProto calls the panicking TotalVotingPower() only after having established, with an
-//     error return, that the members' total is within MaxTotalVotingPower.
+//
+//	error return, that the members' total is within MaxTotalVotingPower.
 func init() {
 	register("C17", "R14", "K1", "decoding peer-supplied evidence fails with an error, never a panic (nil signed header, oversized validator set)", 3, func(c *Ctx) {
 		w := c.W
